@@ -83,7 +83,7 @@ is_6531_local (const char *start, const char *end)
                 /* quote-strings are allowed at the start
                  * or with preciding '.' only
                  */
-                if (prev == 0 || start[prev] == '.')
+                if (utf8_decode_at_byte (&u) == 0 || start[prev] == '.')
                     quote = 1;
                 else
                     return inverse(EEAV_LPART_MISPLACED_QUOTE);
